@@ -17,8 +17,8 @@ from ..model.containers import ListModel, DictModel, key_text
 ID = 'C14'
 
 BOUNDS = {
-    'quick': dict(MAXLEN=4, MAXD=3, DEPTH=12),
-    'thorough': dict(MAXLEN=5, MAXD=4, DEPTH=20),
+    'quick': dict(MAXLEN=4, MAXD=3, DEPTH=12, NESTED=3),
+    'thorough': dict(MAXLEN=5, MAXD=4, DEPTH=20, NESTED=5),
 }
 
 F = Fraction
@@ -329,7 +329,81 @@ def _argclass(kind, op):
     return ''
 
 
+# ---- nested values: what was stored under an index/key is what is read back, whatever is done to the source afterwards
+def _m_store(env, cont, key, src):
+    import copy
+    env[cont][key] = copy.deepcopy(src(env))
+
+
+NESTED_OPS = [
+    # (program, model action on env {c, d, s, g})
+    ('c[0] = s', lambda e: _m_store(e, 'c', 0, lambda e: e['s'])),
+    ('c[1.9] = g', lambda e: _m_store(e, 'c', 1, lambda e: e['g'])),
+    ('d["k"] = s', lambda e: _m_store(e, 'd', 'k', lambda e: e['s'])),
+    ('d[1] = g', lambda e: _m_store(e, 'd', '1', lambda e: e['g'])),
+    ('c[-1] = s[0]', lambda e: _m_store(e, 'c', -1, lambda e: e['s'][0])),
+    ('d["k"] = g["a"]', lambda e: _m_store(e, 'd', 'k', lambda e: e['g']['a'])),
+    ('d["m"] = c', lambda e: _m_store(e, 'd', 'm', lambda e: e['c'])),
+    ('s[0][0] = 9', lambda e: e['s'][0].__setitem__(0, 9)),
+    ('push(s[1], 5)', lambda e: e['s'][1].append(5)),
+    ('g["a"]["c"] = 7', lambda e: e['g']['a'].__setitem__('c', 7)),
+    ('push(g["a"]["b"], 2)', lambda e: e['g']['a']['b'].append(2)),
+    ('pop(s[0])', lambda e: e['s'][0].pop()),
+    ('del g["a"]["b"]', lambda e: e['g']['a'].pop('b', None)),   # del of a missing key: silent (left open by the statement, see model)
+    ('c[0][0][0] = 8', lambda e: e['c'][0][0].__setitem__(0, 8)),
+    ('push(d["k"], 6)', lambda e: e['d']['k'].append(6)),
+    ('push(c[0], 3)', lambda e: e['c'][0].append(3)),
+]
+
+
+def nested_env(api):
+    D = api.Decimal if api else (lambda x: x)
+    return {'c': [D(0), D(0)], 'd': {}, 's': [[D(1)], [D(2)]], 'g': {'a': {'b': [D(1)]}}}
+
+
+def nested_sequences(res, first, depth):
+    import itertools
+    for tail in itertools.product(range(len(NESTED_OPS)), repeat=depth - 1):
+        run_nested(res, (first,) + tail)
+
+
+def run_nested(res, seq):
+    api = snapshot.api()
+    if True:
+        menv = nested_env(None)
+        renv = nested_env(api)
+        res.count('nested_sequences')
+        for n, i in enumerate(seq):
+            text, act = NESTED_OPS[i]
+            import copy
+            before = copy.deepcopy(menv)
+            try:
+                act(menv)
+                merr = False
+            except Exception:  # noqa
+                menv = before
+                merr = True
+            res.count('transitions')
+            try:
+                get_parser().eval(text, renv)
+                rerr = False
+            except Exception:  # noqa
+                rerr = True
+            if merr != rerr or canon(renv) != canon(menv):
+                progs = [NESTED_OPS[j][0] for j in seq[:n + 1]]
+                res.violation(f'nested:{NESTED_OPS[i][0]}:after:{NESTED_OPS[seq[n - 1]][0] if n else ""}',
+                              'containers hold different contents than the model after a sequence storing nested values',
+                              {'kind': 'nested', 'history': progs, 'program': '; '.join(progs), 'contents': [],
+                               'expected': ('error, ' if merr else '') + repr(canon(menv)), 'observed': ('error, ' if rerr else '') + repr(canon(renv))})
+                break
+        res.outcome('nested:%s' % ('err' if merr else 'ok'))
+
+
 def work(task):
+    if task[0] == 'nested':
+        res = runner.Result()
+        nested_sequences(res, task[1], task[2])
+        return res
     kind, states, b = task
     res = runner.Result()
     ops = list_ops() if kind == 'list' else dict_ops()
@@ -371,6 +445,9 @@ def main(tier, seed, t0):
                           'example_op': op_text(new[0][0], (list_ops() if new[0][0] == 'list' else dict_ops())[5])})
             sample_done = True
     fix = not frontier
+    for dpt in range(1, b['NESTED'] + 1):
+        tasks = runner.rotate([('nested', i, dpt) for i in range(len(NESTED_OPS))], seed)
+        total.merge(runner.run_tasks(work, tasks, selftest=False))
     n = total.n
     cov = {
         'states': len(seen),
@@ -382,7 +459,9 @@ def main(tier, seed, t0):
                 'operations and %d dict operations (indices: integers -6..5, decimals, bools, host ints; keys: strings, numbers, '
                 'bools, None, host values; dict literals as transitions), each executed through eval on language numbers and on '
                 'host ints. distinct_nontrivial = distinct (operation, real outcome class, model outcome class).'
-                % (b['MAXLEN'], b['MAXD'], len(list_ops()), len(dict_ops())),
+                'Plus every sequence of up to %d of %d operations that store nested list/dict values under an index or key, mutate '
+                'the source or the stored value, compared with a deep-copy-on-store model after every step (%d sequences).'
+                % (b['MAXLEN'], b['MAXD'], len(list_ops()), len(dict_ops()), b['NESTED'], len(NESTED_OPS), n.get('nested_sequences', 0)),
         'exhaustive': fix,
         'frontier_exhausted': fix,
         'max_depth': depth,
@@ -398,6 +477,9 @@ def main(tier, seed, t0):
 def replay(w):
     res = runner.Result()
     kind = w['kind']
+    if kind == 'nested':
+        run_nested(res, tuple([t for t, _ in NESTED_OPS].index(x) for x in w['history']))
+        return ('REPRODUCED' if res.viol else 'HOLDS') + f"\n {w['program']!r}\n " + repr({k: v[1][:1] for k, v in res.viol.items()})
     st = tuple(w['contents']) if kind == 'list' else tuple(tuple(x) for x in w['contents'])
     step(res, kind, st, tuple(w['op']), BOUNDS['thorough'])
     return ('REPRODUCED' if res.viol else 'HOLDS') + f"\n {w['program']!r} on {w['contents']!r}\n " + \
